@@ -69,7 +69,7 @@ static int orc_line_has_tokens (const OrcLine *line);
 #ifdef ORC_PARSE_DEBUG
 static void orc_line_dump_tokens (const OrcLine *line);
 #endif
-static void orc_line_parse_tokens (OrcLine *line);
+static int orc_line_parse_tokens (OrcLine *line);
 static void orc_line_advance (OrcLine *line);
 static void orc_line_add_token (OrcLine *line);
 static int orc_line_has_tokens (const OrcLine *line);
@@ -186,7 +186,11 @@ orc_parse_code (const char *code, OrcProgram ***programs, int *n_programs,
       continue;
     }
 
-    orc_line_parse_tokens (line);
+    if (!orc_line_parse_tokens (line)) {
+      orc_parse_add_error (parser, "too many tokens on line (maximum %d)",
+          ORC_LINE_MAX_TOKENS);
+      continue;
+    }
 
 #ifdef ORC_PARSE_DEBUG
     orc_line_dump_tokens (line);
@@ -312,7 +316,9 @@ orc_line_dump_tokens (const OrcLine *line)
 }
 #endif
 
-static void
+/* Returns FALSE if the line has more tokens than any directive or opcode
+ * takes (the remaining ones are not stored) */
+static int
 orc_line_parse_tokens (OrcLine *line)
 {
   while (line->p < line->end) {
@@ -320,8 +326,12 @@ orc_line_parse_tokens (OrcLine *line)
     if (!orc_line_has_data (line) || orc_line_is_comment (line)) {
       break;
     }
+    if (line->n_tokens >= ORC_LINE_MAX_TOKENS) {
+      return FALSE;
+    }
     orc_line_add_token (line);
   }
+  return TRUE;
 }
 
 static int
@@ -740,6 +750,13 @@ orc_parse_handle_directive (OrcParser *parser, const OrcLine *line)
   int i;
   for (i=0;dirs[i].name;i++) {
     if (orc_line_match_directive (line, dirs[i].name)) {
+      if (parser->program == NULL &&
+          dirs[i].handler != orc_parse_handle_function &&
+          dirs[i].handler != orc_parse_handle_init) {
+        orc_parse_add_error (parser, "%s before any .function",
+            line->tokens[0]);
+        return 0;
+      }
       dirs[i].handler (parser, line);
       return 1;
     }
@@ -803,6 +820,12 @@ orc_parse_handle_opcode (OrcParser *parser, const OrcLine *line)
   int i, j;
   const char *args[6] = { NULL };
 
+  if (parser->program == NULL) {
+    orc_parse_add_error (parser, "opcode %s before any .function",
+        line->tokens[0]);
+    return 0;
+  }
+
   if (strcmp (line->tokens[0], "x4") == 0) {
     flags |= ORC_INSTRUCTION_FLAG_X4;
     offset = 1;
@@ -850,6 +873,11 @@ orc_parse_handle_opcode (OrcParser *parser, const OrcLine *line)
       snprintf (varname, sizeof (varname), "_%d.%s", opcode_arg_size(o, j), line->tokens[i]);
       id = orc_program_add_constant_str (parser->program, opcode_arg_size(o, j),
           line->tokens[i], varname);
+      if (id <= 0) {
+        orc_parse_add_error (parser, "bad or too many constants: \"%s\"",
+            line->tokens[i]);
+        return 0;
+      }
       /* it's possible we reused an existing variable, get its name so
        * that we can refer to it in the opcode */
       args[j] = parser->program->vars[id].name;
@@ -862,6 +890,11 @@ orc_parse_handle_opcode (OrcParser *parser, const OrcLine *line)
   if (error > 0) {
     orc_parse_add_error (parser, "bad operand \"%s\" in position %d",
             line->tokens[offset + error], error);
+  } else if (error < 0) {
+    orc_parse_add_error (parser, "cannot add instruction %s: %s",
+        line->tokens[offset],
+        parser->program->n_insns >= ORC_N_INSNS ? "too many instructions" :
+        "malformed opcode");
   }
 
   return 1;
